@@ -207,6 +207,36 @@ func (x *Exec) loopEnv(fr *Frame, li *loopInfo, phiVals map[*ssa.Phi]Val, st *St
 			env.vars[phi.Comment] = v
 		}
 	}
+	// loop variables of the ENCLOSING loops are visible by name in the invariant of an inner loop (the phi of a loop head
+	// whose body contains this loop's head); the innermost enclosing loop wins
+	for v, val := range fr.env {
+		phi, ok := v.(*ssa.Phi)
+		if !ok || phi.Comment == "" {
+			continue
+		}
+		if _, taken := env.vars[phi.Comment]; taken {
+			continue
+		}
+		outer := fr.loops[phi.Block()]
+		if outer == nil || outer == li || !outer.body[li.head] {
+			continue
+		}
+		// innermost: no other enclosing loop with a phi of the same name lies inside `outer`
+		innermost := true
+		for w := range fr.env {
+			q, ok := w.(*ssa.Phi)
+			if !ok || q == phi || q.Comment != phi.Comment {
+				continue
+			}
+			o2 := fr.loops[q.Block()]
+			if o2 != nil && o2 != li && o2.body[li.head] && outer.body[o2.head] {
+				innermost = false
+			}
+		}
+		if innermost {
+			env.vars[phi.Comment] = val
+		}
+	}
 	// locals that are assigned exactly once (`name := expr`, never reassigned) are visible by their source name: the SSA
 	// value is found by the position of the right-hand side (call: its "(", composite literal: its "{")
 	for name, pos := range singleAssignLocals(fr.fn) {
